@@ -14,7 +14,7 @@
    "the asynchronous handlers compute mgm_next at every cycle boundary under every FIFO schedule"
    (mgm_refines_rounds); it is checked on every run by M_Mgm.rcheck_case, which replays
    [round_exec] against the cycle-boundary assignments of the real asynchronous executions. *)
-From PyDcop Require Import Base Net M_Mgm P_Mgm M_Mgm2 P_Mgm2 P_Mgm3 P_Mgm3c P_Mgm3b.
+From PyDcop Require Import Base Net M_Mgm P_Mgm M_Mgm2 P_Mgm2 P_Mgm3 P_Mgm3c P_Mgm3b M_Mgm2r P_Mgm2r.
 
 (* no two variables sharing a constraint both move in the same cycle (strict best signed gain
    among neighbours, lexical tie-break) *)
@@ -73,6 +73,96 @@ Theorem mgm2_monotone_refuted :
   /\ map (val_at evs 0) [0; 1] = [0; 0] /\ map (val_at evs 1) [0; 1] = [1; 1]
   /\ gcost w03_d (val_at evs 0) = 5 /\ gcost w03_d (val_at evs 1) = 6.
 Proof. exact mgm2_monotone_refuted_l. Qed.
+
+(* ------------------------------------------------------------------ deepening 2 (M_Mgm2r.v / P_Mgm2r.v)
+   MGM2 at ROUND level: [mgm2_next d thr favor a orc] = one complete MGM2 cycle of all computations as a
+   function on assignments (offerer draws, offers, _find_best_offer, commitment, answers, gains, go / no-go),
+   every node drawing from its own stream in the order of the handlers.  Positive, guarded statements, for
+   every well-formed DCOP (n-ary constraints, own costs), min and max, every threshold, favor mode and draws.
+   Suffix _partial: the refinement "asynchronous MGM2 handlers = mgm2_next at every cycle boundary, every
+   schedule" (mgm2_refines_rounds) is NOT proved; it is checked on every run by M_Mgm2r.r2check_case, which
+   iterates the round function from the observed initial assignment with the observed per-node draws and
+   compares with the assignment at every cycle boundary of the real asynchronous executions.
+
+   Full statement that is NOT claimed (false, see mgm2_monotone_refuted): gcost never gets worse in any round. *)
+
+(* guard: no node committed to a coordinated move in this round.  Then the round never worsens the global
+   cost (it IS an MGM round: every potential gain is the unilateral signed gain, the move rule is MGM's) *)
+Theorem mgm2_unilateral_monotone_partial : forall d thr favor a orc, wf_dcop d = true ->
+  (forall n, In n (ids d) -> r2_committed d thr favor a orc n = false) ->
+  if d_max d then gcost d a <= gcost d (mgm2_next d thr favor a orc)
+  else gcost d (mgm2_next d thr favor a orc) <= gcost d a.
+Proof. exact mgm2_unilateral_monotone_l. Qed.
+
+(* ... and no two constraint-sharing variables both move *)
+Theorem mgm2_unilateral_movers_independent_partial : forall d thr favor a orc, wf_dcop d = true ->
+  (forall n, In n (ids d) -> r2_committed d thr favor a orc n = false) ->
+  forall n m, r2_moves d thr favor a orc n = true -> r2_moves d thr favor a orc m = true ->
+  In m (nbrs d n) -> False.
+Proof. exact mgm2_unilateral_movers_independent_l. Qed.
+
+(* known finding C03-mgm2-coordinated-gain, QUANTIFIED, for all inputs: the "global gain" _find_best_offer
+   attributes to the offer (vo, vp) of the offerer o -- [r2_claimed] = p's FULL current local cost (shared
+   constraints and own cost included) - p's constraints not shared with o under the new values + o's local
+   gain [r2_offer_gain] -- exceeds the true decrease of the global cost when exactly o and p move by
+   EXACTLY the current cost of the constraints p shares with o plus p's own cost of its new value *)
+Theorem mgm2_coordinated_gain_error : forall d a, wf_dcop d = true -> forall o p vo vp,
+  In o (ids d) -> In p (ids d) -> o <> p ->
+  r2_claimed d a p o vo vp (r2_offer_gain d a o p vo vp)
+  = (gcost d a - gcost d (fupd (fupd a o vo) p vp)) + cost_at (shared_cons d p o) a + vcost d p vp.
+Proof. exact mgm2_coordinated_gain_error_l. Qed.
+
+(* hence the cost after the pair's move: it is WORSE than before by shared(a) + vcost p vp - claimed
+   whenever that is positive (min mode) *)
+Theorem mgm2_coordinated_worsening_bound : forall d a, wf_dcop d = true -> forall o p vo vp,
+  In o (ids d) -> In p (ids d) -> o <> p ->
+  gcost d (fupd (fupd a o vo) p vp)
+  = gcost d a - r2_claimed d a p o vo vp (r2_offer_gain d a o p vo vp) + cost_at (shared_cons d p o) a + vcost d p vp.
+Proof. exact mgm2_coordinated_worsening_bound_l. Qed.
+
+(* the same inside the round function: when the non-offerer p accepts the offer (vo, vp) of o, both are
+   committed to each other, hold vo / vp as potential values and announce the SAME gain = the claimed gain *)
+Theorem mgm2_pair_state_partial : forall d thr favor a orc p o vo vp,
+  r2_acc d thr favor a orc p = Some (vo, vp, o) ->
+  In o (nbrs d p) /\ r2_offerer thr orc o = true /\ r2_offerer thr orc p = false
+  /\ r2_committed d thr favor a orc p = true /\ r2_committed d thr favor a orc o = true
+  /\ r2_partner d thr favor a orc p = Some o /\ r2_partner d thr favor a orc o = Some p
+  /\ r2_pval d thr favor a orc p = vp /\ r2_pval d thr favor a orc o = vo
+  /\ r2_pgain d thr favor a orc p = r2_claimed d a p o vo vp (r2_offer_gain d a o p vo vp)
+  /\ r2_pgain d thr favor a orc o = r2_pgain d thr favor a orc p.
+Proof. exact mgm2_pair_state_l. Qed.
+
+(* ... and if the pair moves (both GO) and no other variable changes, the round takes the global cost to
+   gcost a - announced gain + shared(a) + vcost p vp *)
+Theorem mgm2_pair_move_cost_partial : forall d thr favor a orc p o vo vp,
+  r2_acc d thr favor a orc p = Some (vo, vp, o) -> wf_dcop d = true ->
+  r2_moves d thr favor a orc o = true -> r2_moves d thr favor a orc p = true ->
+  (forall v, In v (ids d) -> v <> o -> v <> p -> mgm2_next d thr favor a orc v = a v) ->
+  gcost d (mgm2_next d thr favor a orc)
+  = gcost d a - r2_pgain d thr favor a orc p + cost_at (shared_cons d p o) a + vcost d p vp.
+Proof. exact mgm2_pair_move_cost_l. Qed.
+
+(* non-vacuity of the MGM2 round theorems.  (1) the instance of mgm2_monotone_refuted as ONE round: v1 is
+   offerer (366 < 500) and offers to v0, v0 accepts (1, 1) with claimed gain 1; both move; shared(a) = 2, so
+   the cost goes 5 -> 5 - 1 + 2 + 0 = 6.  (2) a round without commitment on a 3-chain (nobody offers):
+   v1 moves alone, 12 -> 6 *)
+Definition ex2_d : dcop :=
+  mkD [(0, mkV [0; 1] None []); (1, mkV [0; 1] None [(0, 3); (1, 0)]); (2, mkV [0; 1] None [])]
+      [mkC [0; 1] [([0; 0], 1); ([0; 1], 0); ([1; 0], 0); ([1; 1], 2)];
+       mkC [1; 2] [([0; 0], 8); ([0; 1], 4); ([1; 0], 6); ([1; 1], 3)]] false.
+Example c03_mgm2_round_nonvacuous :
+  let a := fun _ : Z => 0 in
+  let orc := orc_of w03_orc in
+  let nx := mgm2_next w03_d 500 0 a orc in
+  wf_dcop w03_d = true /\ r2_acc w03_d 500 0 a orc 0 = Some (1, 1, 1)
+  /\ map (r2_moves w03_d 500 0 a orc) [0; 1] = [true; true] /\ map nx [0; 1] = [1; 1]
+  /\ r2_pgain w03_d 500 0 a orc 0 = 1 /\ cost_at (shared_cons w03_d 0 1) a = 2 /\ vcost w03_d 0 1 = 0
+  /\ gcost w03_d a = 5 /\ gcost w03_d nx = 6
+  /\ (let orc2 := fun _ : Z => [700; 0; 0] in
+      wf_dcop ex2_d = true /\ map (r2_committed ex2_d 500 0 a orc2) [0; 1; 2] = [false; false; false]
+      /\ map (mgm2_next ex2_d 500 0 a orc2) [0; 1; 2] = [0; 1; 0]
+      /\ gcost ex2_d a = 12 /\ gcost ex2_d (mgm2_next ex2_d 500 0 a orc2) = 6).
+Proof. vm_compute. repeat split; reflexivity. Qed.
 
 (* non-vacuity: v0 - v1 - v2 chain, min mode, own cost on v1; one cycle moves v1 only (gain 5
    beats the others) and takes the global cost from 12 to 6; the next cycle moves v2 *)
